@@ -19,6 +19,7 @@
 package c17
 
 import (
+	"context"
 	"fmt"
 	"os"
 	"runtime"
@@ -33,7 +34,10 @@ import (
 	"lunar/engine/services"
 	"lunar/engine/services/remedies"
 	"lunar/engine/streams"
+	"lunar/engine/utils/limit"
+	"lunar/engine/utils/obfuscation"
 	sharedConfig "lunar/shared-model/config"
+	"lunar/toolkit-core/logging"
 
 	spoe "github.com/negasus/haproxy-spoe-go/action"
 	"pgregory.net/rapid"
@@ -70,6 +74,9 @@ type step struct {
 	Park    bool `json:"stay_in_cooldown,omitempty"`        // flows: leave the response parked in its cool-down while later steps run
 	Adv     int  `json:"advance_seconds,omitempty"`         // policy: clock advance before the response
 	Early   bool `json:"answered_by_the_gateway,omitempty"` // dispatcher unit: the response is an early response of a fixed_response remedy
+	// dispatcher unit, with Early: the gateway's answer is that of a strategy-based throttling remedy whose share is
+	// used up (the "too many requests" answer built by the remedies' common code), with this status
+	Throttled bool `json:"by_a_throttling_remedy,omitempty"`
 }
 
 type tcase struct {
@@ -717,11 +724,38 @@ func runPolicyOn(r *ev.Recorder, c tcase, dispatcher bool, ll *longLived) (bool,
 					Remedies: []sharedConfig.Remedy{{Name: fmt.Sprintf("fixed%d", st.Status), Enabled: true, Config: sharedConfig.RemedyConfig{FixedResponse: &sharedConfig.FixedResponseConfig{StatusCode: st.Status}}}}})
 			}
 		}
+		throttled := map[int]bool{}
+		for _, st := range c.Steps {
+			if st.Early && st.Throttled && !throttled[st.Status] {
+				throttled[st.Status] = true
+				pc.Endpoints = append(pc.Endpoints, sharedConfig.EndpointConfig{URL: fmt.Sprintf("h.com/q%d", st.Status), Method: "GET", Diagnosis: []sharedConfig.Diagnosis{},
+					Remedies: []sharedConfig.Remedy{{Name: fmt.Sprintf("throttle%d", st.Status), Enabled: true, Config: sharedConfig.RemedyConfig{StrategyBasedThrottling: &sharedConfig.StrategyBasedThrottlingConfig{
+						AllowedRequestCount: 1, WindowSizeInSeconds: 100_000_000, ResponseStatusCode: st.Status}}}}})
+			}
+		}
 		var err error
 		if tree, err = config.BuildEndpointPolicyTree(pc.Endpoints); err != nil {
 			return false, "", infraErr{"policy tree rejected: " + err.Error()}
 		}
-		svc = &services.PoliciesServices{Remedies: services.RemedyPlugins{RetryPlugin: plugin, FixedResponsePlugin: remedies.NewFixedResponsePlugin(clk)}}
+		thr, terr := remedies.NewStrategyBasedThrottlingPlugin(context.Background(), clk, nil, limit.NewRateLimitState(clk, logging.ContextLogger{}),
+			obfuscation.Obfuscator{Hasher: obfuscation.IdentityHasher{}})
+		if terr != nil {
+			return false, "", infraErr{"throttling plugin: " + terr.Error()}
+		}
+		svc = &services.PoliciesServices{Remedies: services.RemedyPlugins{RetryPlugin: plugin, FixedResponsePlugin: remedies.NewFixedResponsePlugin(clk), StrategyBasedThrottlingPlugin: thr}}
+		// use the one request each throttling remedy admits, so that every further one is answered by the gateway
+		for status := range throttled {
+			acts, err := runner.DispatchOnRequest(lunarMessages.OnRequest{ID: fmt.Sprintf("prime%d", status), SequenceID: fmt.Sprintf("prime%d", status), Method: "GET", Scheme: "https",
+				URL: fmt.Sprintf("h.com/q%d", status), Path: fmt.Sprintf("/q%d", status), Headers: map[string]string{"host": "h.com"}}, tree, pc, svc, nil)
+			if err != nil {
+				return false, "", infraErr{"priming request: " + err.Error()}
+			}
+			for _, a := range acts {
+				if a.Name == actions.StatusCodeActionName {
+					return false, "", infraErr{"the first request of a throttling remedy that allows one was answered by the gateway"}
+				}
+			}
+		}
 	}
 	j := newJudge(r, c)
 	defer func() {
@@ -754,12 +788,16 @@ func runPolicyOn(r *ev.Recorder, c tcase, dispatcher bool, ll *longLived) (bool,
 		}
 		if dispatcher {
 			url := fmt.Sprintf("h.com/s%d", st.Status)
+			if st.Early && st.Throttled {
+				url = fmt.Sprintf("h.com/q%d", st.Status)
+				r.Class("answered by a throttling remedy")
+			}
 			var acts spoe.Actions
 			var err error
 			hdrVar := actions.ResponseHeadersActionName
 			if st.Early {
 				r.Class("answered by the gateway itself")
-				acts, err = runner.DispatchOnRequest(lunarMessages.OnRequest{ID: id, SequenceID: seq, Method: "GET", Scheme: "https", URL: url, Path: fmt.Sprintf("/s%d", st.Status),
+				acts, err = runner.DispatchOnRequest(lunarMessages.OnRequest{ID: id, SequenceID: seq, Method: "GET", Scheme: "https", URL: url, Path: url[strings.Index(url, "/"):],
 					Headers: map[string]string{"host": "h.com", "early-response": "true"}}, tree, pc, svc, nil)
 			} else {
 				acts, err = runner.DispatchOnResponse(lunarMessages.OnResponse{ID: id, SequenceID: seq, Method: "GET", URL: url, Status: st.Status, Headers: map[string]string{}}, tree, &pc.Global, svc, nil)
@@ -860,6 +898,7 @@ func TestPolicyRetryThroughDispatcher(t *testing.T) {
 		c := genPolicyCase().Draw(t, "case")
 		for i := range c.Steps {
 			c.Steps[i].Early = rapid.Bool().Draw(t, "early")
+			c.Steps[i].Throttled = c.Steps[i].Early && c.Steps[i].Status >= 400 && rapid.Bool().Draw(t, "throttled")
 		}
 		r.Case()
 		nt, bad, err := runPolicyVia(r, c, true)
